@@ -70,7 +70,7 @@ def main():
         print("|------|--------|-------------|")
         for sid, prop, props, hits, errors, what in rows:
             det = "; ".join("%s (%s)" % (p, ", ".join(x.split(" ")[0] for x in hits[p])) for p in props) or "**not detected**"
-            print("| %s | %s | %s |" % (sid, (what or "")[:140], det))
+            print("| %s | %s | %s |" % (sid, (what or "")[:230], det))
     return 0
 
 
